@@ -75,7 +75,9 @@ func VerifHarness_C02() {
 	// after the cool-down, or when nothing was accepted, the group is acted on again
 	free := verifOr(!accepted, gap >= cd+1)
 	T := int64(o.ScaleUpThresholdPercent)
-	headroom := refused == 0 // with the cloud group at its maximum no request can be made
+	// with the cloud group at its maximum no request can be made
+	asg2 := w.AS.Group(o.CloudProviderGroupName)
+	headroom := asg2.Desired < asgMax && asg2.Desired < int64(o.MaxNodes)
 	overloaded := verifAnd(verifAnd(headroom, s.untainted >= int64(o.MinNodes)), verifAnd(s.untainted > 0, clearlyAbove(100*s.cpuReq, T*s.cpuCap)))
 	verifAssert("C02.acts-again-after-cooldown(scale-up)", verifImplies(verifAnd(free, overloaded), j2.untaintAttempts+j2.increaseAttempts >= 1))
 	belowMin := verifAnd(s.untainted < int64(o.MinNodes), verifOr(headroom, s.tainted > 0))
